@@ -109,7 +109,8 @@ func ClassifyCommitPanic(r interface{}) error {
 }
 
 type entry struct {
-	h       int64
+	h       int64 // commit height
+	upto    int64 // last height whose state this is (set by required)
 	content map[string]string
 	batch   []KV
 	root    []byte
@@ -224,18 +225,13 @@ func (s *sim) valid(o Op) bool {
 	return false
 }
 
-type stepInfo struct {
-	height                                    int64
-	recommit, equalAbandoned, recurs, leafRec bool
-	staleEmpty                                bool
-}
+type stepInfo struct{ recommit, equalAbandoned, recurs, leafRec, staleEmpty bool }
 
 // apply advances the model by one valid op.
 func (s *sim) apply(o Op) (inf stepInfo) {
 	switch o.Op {
 	case "commit":
 		h := s.tip + 1
-		inf.height = h
 		content := applyBatch(s.cur(), o.KV)
 		inf.recurs = s.recurs(h, content)
 		inf.recommit = h <= s.maxH
@@ -308,6 +304,7 @@ func (s *sim) required() []entry {
 			next = s.chain[i+1].h
 		}
 		if next-1 >= lo { // e is the state of heights e.h .. next-1
+			e.upto = next - 1
 			out = append(out, e)
 		}
 	}
@@ -503,11 +500,11 @@ func Run(tb lib.TB, test string, c Case, be Backend) bool {
 			sort.Strings(keys)
 			vals, failure := be.Read(e.root, keys)
 			if failure != "" {
-				fail(i, "state of height %d (root %x), required because tip=%d floor=%d pruneHeight=%d, is unreadable: %s", e.h, e.root, s.tip, s.floor, c.PH, failure)
+				fail(i, "the state of heights %d..%d (root %x), required because tip=%d and no prune run licensed dropping heights above %d (pruneHeight=%d), is unreadable: %s", e.h, e.upto, e.root, s.tip, s.floor, c.PH, failure)
 			}
 			for j, k := range keys {
 				if vals[j] != e.content[k] {
-					fail(i, "state of height %d (root %x): key %q reads %q, committed value %q (tip=%d floor=%d)", e.h, e.root, k, vals[j], e.content[k], s.tip, s.floor)
+					fail(i, "the state of heights %d..%d (root %x): key %q reads %q, committed value %q (tip=%d, heights above %d promised readable)", e.h, e.upto, e.root, k, vals[j], e.content[k], s.tip, s.floor)
 				}
 			}
 		}
@@ -544,6 +541,7 @@ func Run(tb lib.TB, test string, c Case, be Backend) bool {
 			root, err := be.Commit(parent(), s.tip+1, o.KV)
 			if _, ok := err.(*CleanupPanic); ok {
 				lib.Class("recommit_cleanup_panicked")
+				lib.Class("recommit_cleanup_panicked_" + c.Mode)
 				return false
 			}
 			if err != nil || len(root) == 0 {
